@@ -97,6 +97,7 @@ def main():
     out.append('| id | what it breaks / what it needs to manifest | caught | first report of the check |')
     out.append('|---|---|---|---|')
     n = caught = 0
+    n_neutral = [0]
     for d in sorted(glob.glob(os.path.join(VERIF, 'seeded', '*'))):
         try:
             m = json.load(open(os.path.join(d, 'meta.json')))
@@ -104,6 +105,13 @@ def main():
             continue
         sid = os.path.basename(d)
         v = m.get('verified', {})
+        neutral = m.get('neutralised_by')
+        if neutral:
+            # a later `fix:` commit removed the weakness the change relied on: its demo passes with the patch applied
+            n_neutral[0] += 1
+            what = (m.get('what_breaks') or m.get('title') or '').replace('\n', ' ').replace('|', '/')
+            out.append(f"| {sid} | {what[:260]} | no longer a violation | {neutral.replace('|', '/')} |")
+            continue
         n += 1
         caught += bool(v.get('caught'))
         what = (m.get('what_breaks') or m.get('title') or '').replace('\n', ' ').replace('|', '/')
@@ -112,7 +120,8 @@ def main():
         note = v.get('note') or ''
         rep = (v.get('first_report') or '').replace('\n', ' ').replace('|', '/')[:160]
         out.append(f"| {sid} | {what[:260]} — *needs:* {need[:220]} | {how} | {rep}{(' — ' + note) if note else ''} |")
-    out.append(f'\n{caught} of {n} seeded changes are caught on the current tree.\n')
+    out.append(f'\n{caught} of {n} seeded changes are caught on the current tree'
+               + (f' ({n_neutral[0]} more no longer break the property after a later repair of the repository: their demonstrations pass with the patch applied)' if n_neutral[0] else '') + '.\n')
 
     text = '\n'.join(out)
     p = os.path.join(VERIF, 'DESIGN.md')
